@@ -598,6 +598,20 @@ def m_peek(ex, callee, args):
     return some(Ref(r, 0))
 
 
+@model(r'^core::slice::<impl \[(char|u8|u16|u32|u64|usize|i8|i16|i32|i64|isize|bool)\]>::contains$|^Vec::<(char|u8|u16|u32|u64|usize|i8|i16|i32|i64|isize|bool)>::contains$')
+def m_slice_contains_scalar(ex, callee, args):
+    v = vec_of(args[0])
+    x = deref_all(args[1])
+    hits = []
+    for it in v.items:
+        it = deref_all(it)
+        if isinstance(x, BV) and isinstance(it, BV):
+            hits.append(ex.int_binop('Eq', BV(it.v, x.ty), BV(x.v, x.ty)))
+        else:
+            hits.append(struct_eq(ex, it, x))
+    return b_or(*hits) if hits else False
+
+
 @model(r'^(std::string::|alloc::string::)?String::push$')
 def m_string_push(ex, callee, args):
     # String::push(char) on a string under construction (concrete length)
@@ -1081,10 +1095,42 @@ def parse_int_terms(uni, s, ty):
     -> (valid: Bool, value: BV64)"""
     bits, signed = INT_TYPES[ty]
     bs, ln, cap = S.parts(s)
-    if cap > 18 or bits != 64:
+    if cap > 38 or bits != 64:
         raise Unsupported('symbolic parse::<%s> with cap %d' % (ty, cap))
     key = ('parse_int', ty, S.skey(s))
     ent = uni.memo.get(key)
+    if ent is None and cap > 18:
+        # longer texts can overflow: the value is accumulated in 128 bits and the result is valid only if it fits
+        bs = [z3.BitVecVal(b, 8) if isinstance(b, int) else b for b in bs]
+        W = 128
+        valid = False
+        value = z3.BitVecVal(0, 64)
+        lo, hi = (-(1 << 63), (1 << 63) - 1) if signed else (0, (1 << 64) - 1)
+        for L in range(1, cap + 1):
+            for sign in (0, 1, 2):
+                nd = L - (1 if sign else 0)
+                if nd < 1 or (sign == 2 and not signed):
+                    continue
+                off = 1 if sign else 0
+                conds = [ln == L]
+                if sign == 1:
+                    conds.append(bs[0] == 0x2b)
+                elif sign == 2:
+                    conds.append(bs[0] == 0x2d)
+                val = z3.BitVecVal(0, W)
+                for i in range(nd):
+                    b = bs[off + i]
+                    conds.append(z3.And(z3.UGE(b, 0x30), z3.ULE(b, 0x39)))
+                    val = val * 10 + z3.ZeroExt(W - 8, b - 0x30)
+                if sign == 2:
+                    val = -val
+                conds.append(z3.And(val >= z3.BitVecVal(lo, W), val <= z3.BitVecVal(hi, W)))
+                c = z3.And(*conds)
+                valid = b_or(valid, c)
+                value = z3.If(c, z3.Extract(63, 0, val), value)
+        ent = (z3bool(valid), value)
+        uni.memo[key] = ent
+        uni.alive.append(s)
     if ent is None:
         bs = [z3.BitVecVal(b, 8) if isinstance(b, int) else b for b in bs]
 
